@@ -8,6 +8,9 @@ import (
 func sorted(s []string) []string { sort.Strings(s); return s }
 
 func TestAll(t *testing.T) {
+	if Round4(3) != 18 || IfaceLocks("abc") != 3 {
+		t.Fatal("fourth review constructs")
+	}
 	if GoIfaceVariadic() != 21 || GridGet("abc") != 3 || OnceTableGet(2) != 20 {
 		t.Fatal("third review constructs")
 	}
